@@ -17,6 +17,12 @@
  * ============================================================================
  */
 
+static int compare_boolean(const void* a, const void* b) {
+    uint8_t va = *(const uint8_t*)a;   /* BOOLEAN statistics are 1-byte plain values */
+    uint8_t vb = *(const uint8_t*)b;
+    return (va > vb) - (va < vb);
+}
+
 static int compare_int32(const void* a, const void* b) {
     int32_t va = *(const int32_t*)a;
     int32_t vb = *(const int32_t*)b;
@@ -56,8 +62,9 @@ typedef int (*compare_fn_t)(const void*, const void*);
 
 static compare_fn_t get_compare_fn(carquet_physical_type_t type) {
     switch (type) {
-        case CARQUET_PHYSICAL_INT32:
         case CARQUET_PHYSICAL_BOOLEAN:
+            return compare_boolean;
+        case CARQUET_PHYSICAL_INT32:
             return compare_int32;
         case CARQUET_PHYSICAL_INT64:
             return compare_int64;
